@@ -9,13 +9,18 @@ and the total progress CheckStatus stores.  harness/c05_impl.py (documents, _new
 
 A case (JSON-able): {'pre': stages before the loop, 'K': stages spanned by the loop, 'width': [components per looped
 stage], 'iters': iterations run, 'post': 0|1 plain stage after the loop, 'weights': thousandths per stage (or None),
-'seed': order of the terminations, 'start': index of the stage the run STARTS at (absent = 0; > 0 is a RESTART: the first
+'seed': order of the terminations, 'lag': how many components may have reached their terminal state (engine exited, ComponentState.state final) WITHOUT
+Controller.finishedCheck having been delivered for them yet (absent/0 = every termination is notified at once); the real
+CheckStatus reports inside that window too (events 'terminated X' ... 'notified X'), also after the controller entered a
+later stage, 'start': index of the stage the run STARTS at (absent = 0; > 0 is a RESTART: the first
 Controller.initialise() is for a later stage, the stages before it were completed by an earlier run - the Controller
 marks their components as done and nothing is ever delivered for them)}
 
-The observation keeps two views of the nodes: 'nodes' = [stage, active?] where active means "no termination was
-DELIVERED by this driver" (the model applies the restart itself: Weights.Model.restart_nodes), and 'done' = per stage
-[terminated or skipped, nodes] (what the weighted fraction is computed from)."""
+The observation keeps two views of the nodes: 'nodes' = [stage, state] with state 2 = finishedCheck was DELIVERED by this
+driver (Model.NObserved), 1 = the component reached its terminal state (in this run or, for a skipped stage, in an earlier
+one) and nothing was delivered (Model.NReported), 0 = running (the model applies the restart itself:
+Weights.Model.restart_nodes), and 'done' = per stage [terminated or skipped, nodes] (what the weighted fraction is
+computed from: get_stage_status reads the states the components REPORT)."""
 import logging
 import os
 import random
@@ -122,7 +127,33 @@ def drive(case):
                 d[0] += int(node in finished_nodes)
             events.append({'event': what, 'finished': fin, 'transit': tr, 'total': totals[-1] if totals else None,
                            'done': done, 'current': state['cur'],
-                           'nodes': [[stage_of(nd), nd not in delivered] for nd in sorted(graph.nodes)]})
+                           'pending': [stage_of(nd) for nd in pending],
+                           'complete': sorted(s_ for s_, d_ in done.items() if d_[0] == d_[1]),
+                           'nodes': [[stage_of(nd), 2 if nd in delivered else 1 if nd in finished_nodes else 0]
+                                     for nd in sorted(graph.nodes)]})
+
+        lag = int(case.get('lag') or 0)
+        pending = []
+
+        def is_condition(node):
+            name = node.split('.', 1)[1]
+            return '#' in name and name.split('#', 1)[1] == cond_name
+
+        def terminate(node):
+            """the component reaches its terminal state: its engine exited, ComponentState.state is `finished`"""
+            comp = ctl.get_compstate(node)
+            if is_condition(node):
+                it = int(node.split('.', 1)[1].split('#', 1)[0])
+                with open(os.path.join(comp.specification.workingDir.path, 'out.stdout'), 'w') as f:
+                    f.write('True\n' if it + 1 < case['iters'] else 'False\n')
+            comp.controllerState = codes.FINISHED_STATE
+            finished_nodes.add(node)
+
+        def deliver(node):
+            """what the controller's subscription to ComponentState.notifyFinished does"""
+            comp = ctl.get_compstate(node)
+            ctl.finishedCheck(comp.state, comp)
+            delivered.add(node)
 
         # a restart: the components of the stages before the starting one terminated in an earlier run
         skipped = set(n for n in graph.nodes if stage_of(n) < start)
@@ -130,11 +161,21 @@ def drive(case):
         delivered = set()
         ctl.initialise(exp._stages[start], c05_impl._FakeStatus())
         report('start')
-        for _step in range(400):
+        for _step in range(800):
             ready = sorted(n for n in graph.nodes if n not in finished_nodes
                            and all(p in finished_nodes for p in graph.predecessors(n)))
             # a stage is entered once every earlier one has no runnable node left, except that the components of the
             # loop (all its stages) run while the controller holds on to the first stage of the loop
+            in_loop = [n for n in ready if first_loop <= stage_of(n) <= last_loop]
+            held = [n for n in pending if is_condition(n)]
+            if pending and (not ready or (held and not in_loop)):
+                # nothing else can terminate before a notification arrives; the controller does not leave the loop
+                # before it has seen the condition (the next iteration is instantiated by that notification)
+                node = held[0] if held else pending[0]
+                pending.remove(node)
+                deliver(node)
+                report('notified ' + node)
+                continue
             lo = min(stage_of(n) for n in ready) if ready else None
             if lo is None:
                 break
@@ -148,18 +189,23 @@ def drive(case):
                 state['cur'] = want
                 ctl.initialise(exp._stages[want], c05_impl._FakeStatus())
                 report('enter stage %d' % want)
+            if lag == 0:
+                node = rnd.choice(ready)
+                terminate(node)
+                deliver(node)
+                report('finished ' + node)
+                continue
+            # the WINDOW between a termination and its notification: up to `lag` components have reached their terminal
+            # state (what they REPORT) while the controller has not run finishedCheck for them yet (what it OBSERVED)
+            if pending and (len(pending) >= lag or rnd.random() < 0.4):
+                node = pending.pop(0 if rnd.random() < 0.7 else rnd.randrange(len(pending)))
+                deliver(node)
+                report('notified ' + node)
+                continue
             node = rnd.choice(ready)
-            comp = ctl.get_compstate(node)
-            name = node.split('.', 1)[1]
-            if '#' in name and name.split('#', 1)[1] == cond_name:
-                it = int(name.split('#', 1)[0])
-                with open(os.path.join(comp.specification.workingDir.path, 'out.stdout'), 'w') as f:
-                    f.write('True\n' if it + 1 < case['iters'] else 'False\n')
-            comp.controllerState = codes.FINISHED_STATE
-            ctl.finishedCheck(comp.state, comp)
-            finished_nodes.add(node)
-            delivered.add(node)
-            report('finished ' + node)
+            terminate(node)
+            pending.append(node)
+            report('terminated ' + node)
         last = nstages - 1
         if state['cur'] != last:
             state['cur'] = last
